@@ -12,7 +12,7 @@ MONITORS = ['C01']
 
 
 def run(ctx):
-    machine_prop.run(ctx, FAMILIES, MONITORS)
+    machine_prop.run(ctx, FAMILIES, MONITORS, extra_scenarios=time_connectives(ctx.rng, ctx.n(60, 1200)))
     # infinite dates: the clock can reach inf (`time >= inf`, `time + inf`); the kernel model keeps keys strictly
     # above the clock, so what happens AFTER the clock reached inf is outside the model: this family is checked by
     # the arithmetic oracle on the implementation only
@@ -20,7 +20,8 @@ def run(ctx):
     # times that are inexact in binary floating point (0.1, 0.7, 0.9 ...): a date must be hit EXACTLY (`at=date`),
     # a delay must end at exactly `clock at the wait + d` (the same float expression); the model uses integers, so this
     # family, too, is checked by the oracle on the implementation only
-    machine_prop.run(ctx, [('timers', 60, 1500, {'float_times': True})], MONITORS, model=False)
+    machine_prop.run(ctx, [('timers', 60, 1500, {'float_times': True})], MONITORS, model=False,
+                     extra_scenarios=float_at_starts(ctx.rng, ctx.n(40, 600)))
     sd_backend(ctx, ctx.n(80, 1500))
     nested_runs(ctx, ctx.n(20, 300))
     past_till(ctx, ctx.n(30, 500))
@@ -121,6 +122,8 @@ def reused_conditions(ctx, n):
                     await (time + (d + 10))
             else:
                 await cond
+                if kind == 'after':
+                    await cond          # the date is reached: holds already, resumes within this time step
             log.append((tag, time.now))
 
         async def outer():
@@ -138,6 +141,46 @@ def reused_conditions(ctx, n):
         if log != want:
             ctx.fail(case, 'a %s condition for the date %r used by %d simulations in a row%s: resumed at %r, expected %r'
                      % (kind, d, runs, ' (each with a nested one)' if nested else '', log, want), family='reused-conditions')
+
+
+def time_connectives(rng, n):
+    """waits for `&` / `|` formulas over dates (`time >= d`, `time < d`, `time == d`), nested in any shape: the wait ends at
+    the first date at which the formula holds - the oracle evaluates the formula at the dates it mentions"""
+    def leaf():
+        return rng.choice([['after', rng.randint(0, 9)], ['after', rng.randint(0, 9)], ['moment', rng.randint(1, 9)],
+                           ['before', rng.randint(0, 9)], ['after', rng.randint(3, 12)]])
+
+    def tree(depth):
+        if depth >= 3 or rng.random() < 0.35:
+            return leaf()
+        return [rng.choice(['and', 'or']), tree(depth + 1), tree(depth + 1)]
+    out = []
+    for _ in range(n):
+        roots = []
+        for i in range(rng.choice([1, 2, 3])):
+            pre = [['await', ['delay', rng.choice([0, 1, 2, 4])]]] if rng.random() < 0.6 else []
+            w = [rng.choice(['and', 'or']), tree(1), tree(1)]
+            roots.append(pre + [['await', w], ['log', 10 + i], ['await', ['delay', 1]], ['log', 20 + i]])
+        roots.append([['await', ['delay', 15]], ['log', 1]])
+        out.append(('time-connectives', dict(start=0, till=None, roots=roots, nflags=1, tracked=[0], nlocks=1, nqueues=1,
+                                             nchans=1, res=[])))
+    return out
+
+
+def float_at_starts(rng, n):
+    """`scope.do(..., at=t)` for dates that are inexact in binary floating point, planned at several clock readings: the
+    child starts when the clock reads EXACTLY t (not now + (t - now)), together with anybody waiting for `time == t`"""
+    out = []
+    for _ in range(n):
+        start = rng.choice([0.2, 0.3, 0.1, 0])
+        pre = rng.choice([0, 0.1, 0.2])
+        dates = [round(start + pre + x, 6) for x in rng.sample([0.3, 0.4, 0.6, 0.7, 0.9, 1.1, 1.3], 3)]
+        body = ([['await', ['delay', pre]]] if pre else []) + \
+            [['do', 1, 1 + i, ['at', d], False, [['log', 10 + i]]] for i, d in enumerate(dates)] + [['await', ['delay', 3]]]
+        watcher = [['await', ['moment', dates[0]]], ['log', 20]]
+        out.append(('float-at-starts', dict(start=start, till=None, float_times=True, roots=[[['scope', 1, body]], watcher],
+                                            nflags=1, tracked=[0], nlocks=1, nqueues=1, nchans=1, res=[])))
+    return out
 
 
 def past_till(ctx, n):
